@@ -95,6 +95,28 @@ def substitution():
         return "after the substitution block mv is not the original Jacobian"
 
 
+def object_only_substitution():
+    """only the tensor held by the module is replaced (argument and explicit parameter stay)"""
+    a = torch.tensor([2.0, 3.0], dtype=dt, requires_grad=True)
+    m = EM(a)
+    y = torch.tensor([0.3, -0.7, 1.1], dtype=dt, requires_grad=True)
+    s = torch.tensor(1.5, dtype=dt, requires_grad=True)
+    J = jac(m.f, (y, s), idxs=0)
+    u = torch.tensor([1.0, -2.0, 0.5], dtype=dt)
+    J.mv(u)
+    a2 = torch.tensor([10.0, -20.0], dtype=dt, requires_grad=True)
+    Jd2 = _dense(lambda yy: EM(a2).f(yy, s), y)
+    with J.uselinopparams(y, s, a2):
+        got, gott = J.mv(u), J.rmv(u)
+    if m.a is not a:
+        return "the module's tensor was not restored"
+    if not torch.allclose(got, Jd2 @ u, rtol=1e-10, atol=1e-12):
+        return "after substituting only the object's tensor mv is not the Jacobian at the new tensor: got %s expected %s" % (
+            got.tolist(), (Jd2 @ u).tolist())
+    if not torch.allclose(gott, Jd2.T @ u, rtol=1e-10, atol=1e-12):
+        return "after substituting only the object's tensor rmv is not the transposed Jacobian at the new tensor"
+
+
 def substitution_after_non_tensor():
     def f(k, y, s):
         return torch.stack([k * y[0] ** 2 * s + y[1], torch.sin(y[1]) + y[0] * y[2], y[2] ** 3])
@@ -142,7 +164,7 @@ def index_validation():
             pass
 
 
-TABLE = {"complex_products": complex_products, "products": products, "substitution": substitution, "substitution_after_non_tensor": substitution_after_non_tensor, "hessian": hessian, "index_validation": index_validation}
+TABLE = {"complex_products": complex_products, "products": products, "substitution": substitution, "object_only_substitution": object_only_substitution, "substitution_after_non_tensor": substitution_after_non_tensor, "hessian": hessian, "index_validation": index_validation}
 
 if __name__ == "__main__":
     run_oracles(TABLE, sys.argv)
